@@ -1,0 +1,56 @@
+//go:build verif
+
+package eval
+
+import (
+	"encoding/json"
+	"errors"
+	"os"
+	"ti/base"
+	"ti/context"
+	"ti/parser"
+)
+
+// Three extra keywords, registered only in verification builds, let a source file make a chosen
+// top-level statement fail, panic, or snapshot the global tables:
+//   __verif_error__ "msg"     the statement returns an error with that message
+//   __verif_panic__ "msg"     the statement panics with that message
+//   __verif_dump__ "path"     the global tables are written to path as JSON (check round only)
+
+type verifError struct{}
+type verifPanic struct{}
+type verifDump struct{}
+
+func init() {
+	DynamicEvaluators["__verif_error__"] = &verifError{}
+	DynamicEvaluators["__verif_panic__"] = &verifPanic{}
+	DynamicEvaluators["__verif_dump__"] = &verifDump{}
+}
+
+func verifStringArg(p *parser.Parser) string {
+	t, err := p.Read()
+	if err != nil || t == nil {
+		return ""
+	}
+	return t.ToString()
+}
+
+func (v *verifError) Evaluation(e *Evaluator, p *parser.Parser, ctx context.Context, t *base.T) error {
+	return errors.New(verifStringArg(p))
+}
+
+func (v *verifPanic) Evaluation(e *Evaluator, p *parser.Parser, ctx context.Context, t *base.T) error {
+	panic(verifStringArg(p))
+}
+
+func (v *verifDump) Evaluation(e *Evaluator, p *parser.Parser, ctx context.Context, t *base.T) error {
+	path := verifStringArg(p)
+	if !ctx.IsCheckRound() {
+		return nil
+	}
+	b, err := json.Marshal(base.VerifSnapshot(false))
+	if err != nil {
+		return err
+	}
+	return os.WriteFile(path, b, 0o644)
+}
